@@ -125,7 +125,7 @@ func tmRow(r *rng, charset int) ([]byte, []tmRun, *tmRowSpec) {
 			case 1:
 				pos := []byte{0x23, 0x24, 0x40, 0x5b, 0x5c, 0x5d, 0x5e, 0x5f, 0x60, 0x7b, 0x7c, 0x7d, 0x7e}
 				c = pos[r.intn(len(pos))]
-				if (charset == 0 || charset == 7) && englishAmbiguous[c] {
+				if charset == 7 && englishAmbiguous[c] {
 					c = 'e'
 				}
 			default:
